@@ -89,6 +89,14 @@ var vhC17Unresolved = []string{
 	"a{% apply nosuchfilter %}q{% endapply %}b",
 	"a{% spaceless %}<b>{{ nosuchfunction() }}</b>{% endspaceless %}b",
 	"a{% block q %}{{ x|nosuchfilter }}{% endblock %}b",
+	// `ignore missing` only forgives that the named template itself is missing
+	"a{% include 'wraps-missing-include' ignore missing %}b",
+	"a{% include 'wraps-missing-extends' ignore missing %}b",
+	"a{% include 'wraps-missing-import' ignore missing %}b",
+	"a{% include 'wraps-missing-from' ignore missing %}b",
+	"a{% include 'wraps-wraps' ignore missing %}b",
+	"a{% include 'wraps-badfilter' ignore missing %}b",
+	"a{% include 'wraps-missing-include' ignore missing with {'q': 1} only %}b",
 }
 
 func vhC17Engine(tick func() bool, debug bool) *Engine {
@@ -119,6 +127,12 @@ func vhC17Engine(tick func() bool, debug bool) *Engine {
 	e.RegisterString("base", "<{% block b %}d{% endblock %}>")
 	e.RegisterString("basefault", "<{% block b %}{{ x|boom }}{% endblock %}>")
 	e.RegisterString("lib", "{% macro m(p) %}({{ p|boom }}){% endmacro %}")
+	e.RegisterString("wraps-missing-include", "[p{% include 'nosuchtemplate' %}q]")
+	e.RegisterString("wraps-missing-extends", "{% extends 'nosuchtemplate' %}")
+	e.RegisterString("wraps-missing-import", "[{% import 'nosuchtemplate' as l %}]")
+	e.RegisterString("wraps-missing-from", "[{% from 'nosuchtemplate' import m %}]")
+	e.RegisterString("wraps-wraps", "<{% include 'wraps-missing-include' %}>")
+	e.RegisterString("wraps-badfilter", "[{{ x|nosuchfilter }}]")
 	e.RegisterLoader(&vhFaultLoader{tick: tick, tpl: map[string]string{
 		"L1": "l1{{ x }}", "L2": "<{% block b %}d{% endblock %}>", "L3": "{% macro m(p) %}({{ p }}){% endmacro %}"}})
 	return e
@@ -180,7 +194,7 @@ func VH_C17_Unresolved() {
 	symCover("rendered")
 	symAssert(err != nil, "unresolved-name-is-an-error")
 	symAssert(out == "", "no-output-with-error")
-	if t >= 3 && t <= 6 && err != nil {
+	if ((t >= 3 && t <= 6) || (t >= 13 && t <= 17) || t == 19) && err != nil {
 		symAssert(errors.Is(err, ErrTemplateNotFound), "missing-template-matches-ErrTemplateNotFound")
 	}
 }
